@@ -324,14 +324,16 @@ impl Clone for Coin {
 #[derive(Debug, Structural, PartialEq, Eq, Clone, Copy)]
 pub struct Timestamp(pub u64);
 impl Timestamp {
-    pub const fn from_nanos(n: u64) -> (r: Timestamp) ensures r.0 == n { Timestamp(n) }
+    /// nanoseconds since the epoch, as an integer
+    pub open spec fn nv(self) -> u64 { self.0 }
+    pub const fn from_nanos(nanos_since_epoch: u64) -> (r: Timestamp) ensures r.nv() == nanos_since_epoch { Timestamp(nanos_since_epoch) }
     /// `Timestamp(Uint64::new(seconds * 1_000_000_000))` – overflow panics (overflow-checks on).
-    pub const fn from_seconds(s: u64) -> (r: Timestamp)
-        requires s * 1_000_000_000 <= u64::MAX,
-        ensures r.0 == s * 1_000_000_000,
-    { Timestamp(s * 1_000_000_000) }
-    pub const fn nanos(&self) -> (r: u64) ensures r == self.0 { self.0 }
-    pub const fn seconds(&self) -> (r: u64) ensures r == self.0 / 1_000_000_000 { self.0 / 1_000_000_000 }
+    pub const fn from_seconds(seconds_since_epoch: u64) -> (r: Timestamp)
+        requires seconds_since_epoch * 1_000_000_000 <= u64::MAX,
+        ensures r.nv() == seconds_since_epoch * 1_000_000_000,
+    { Timestamp(seconds_since_epoch * 1_000_000_000) }
+    pub const fn nanos(&self) -> (r: u64) ensures r == self.nv() { self.0 }
+    pub const fn seconds(&self) -> (r: u64) ensures r == self.nv() / 1_000_000_000 { self.0 / 1_000_000_000 }
     pub open spec fn secs(self) -> u64 { (self.0 / 1_000_000_000) as u64 }
 }
 
